@@ -126,3 +126,116 @@ def fact_isinstance(point_or_facts, subject_name: str):
                 elts = t.elts if isinstance(t, ast.Tuple) else [t]
                 out.append(([dotted(e) or unparse(e) for e in elts], pol))
     return out
+
+
+# ----------------------------------------------------------------------------
+# F5: Expr constructor calls
+# ----------------------------------------------------------------------------
+
+
+class Bound:
+    """Binding of a constructor call's arguments to the target class's _parameters."""
+
+    def __init__(self, cls, params, call):
+        self.cls = cls
+        self.params = params
+        self.call = call
+        self.args = {}  # param -> node
+        self.open_from = None  # index from which a *splat fills positionals (unknown length)
+        self.splat_node = None
+        self.open_kwargs = None  # node of **kwargs if present
+        self.extra_positional = []  # positionals beyond the declared parameters
+        self.unknown_keywords = []
+
+    def passed(self, p):
+        return p in self.args
+
+    def maybe_passed(self, p):
+        if p in self.args:
+            return True
+        if self.open_kwargs is not None:
+            return True
+        if self.open_from is not None and p in self.params and self.params.index(p) >= self.open_from:
+            return True
+        return False
+
+
+def bind_call(model, cls, call) -> Bound:
+    params = model.parameters(cls)
+    b = Bound(cls, params, call)
+    i = 0
+    for a in call.args:
+        if isinstance(a, ast.Starred):
+            b.open_from = i
+            b.splat_node = a.value
+            break
+        if i < len(params):
+            b.args[params[i]] = a
+        else:
+            b.extra_positional.append(a)
+        i += 1
+    for kw in call.keywords:
+        if kw.arg is None:
+            b.open_kwargs = kw.value
+        elif kw.arg in params:
+            b.args[kw.arg] = kw.value
+        else:
+            b.unknown_keywords.append(kw.arg)
+    return b
+
+
+def ctor_target(model, mod, owner_cls, call, selfname="self"):
+    """Which Expr class does this call construct?  Returns (ClassInfo, how) or None.
+    how: 'name' (ClassName(...)), 'type(self)', 'type(x)' (dynamic: class of another expression)."""
+    f = call.func
+    if isinstance(f, ast.Call) and isinstance(f.func, ast.Name) and f.func.id == "type" and len(f.args) == 1:
+        a = f.args[0]
+        if isinstance(a, ast.Name) and a.id == selfname and owner_cls is not None:
+            return owner_cls, "type(self)"
+        return None
+    r = model.resolve_expr(mod, f) if isinstance(f, (ast.Name, ast.Attribute)) else None
+    if r is not None and r[0] == "class" and model.is_expr(r[1]):
+        return r[1], "name"
+    # function-local imports
+    if isinstance(f, ast.Name):
+        fn = f
+        while fn is not None and not isinstance(fn, (ast.FunctionDef, ast.AsyncFunctionDef)):
+            fn = getattr(fn, "_parent", None)
+        while fn is not None:
+            for n in ast.walk(fn):
+                if isinstance(n, ast.ImportFrom):
+                    for al in n.names:
+                        if (al.asname or al.name) == f.id:
+                            m = model.modules.get(n.module or "")
+                            if m is not None:
+                                rr = model.resolve_name(m, al.name)
+                                if rr is not None and rr[0] == "class" and model.is_expr(rr[1]):
+                                    return rr[1], "name"
+            fn = getattr(fn, "_parent", None)
+            while fn is not None and not isinstance(fn, (ast.FunctionDef, ast.AsyncFunctionDef)):
+                fn = getattr(fn, "_parent", None)
+    return None
+
+
+def reads_of_self(model, cls, node, selfname="self", depth=2, _seen=None):
+    """Parameters of ``cls`` that evaluating ``node`` may read: self.p / self.operand('p') directly,
+    or through properties / methods of the class (to the given depth)."""
+    out = set()
+    params = set(model.parameters(cls))
+    _seen = _seen if _seen is not None else set()
+    for n in ast.walk(node):
+        if is_self_attr(n, None, selfname):
+            a = n.attr
+            kind, mem = model.attr_kind(cls, a)
+            if kind == "operand":
+                out.add(a)
+            elif mem is not None and mem.kind != "attr" and depth > 0 and id(mem.node) not in _seen:
+                _seen.add(id(mem.node))
+                out |= reads_of_self(model, cls, mem.node, "self", depth - 1, _seen)
+            if a == "operands":
+                out |= {"*operands"}
+        if isinstance(n, ast.Call) and is_self_attr(n.func, "operand", selfname) and n.args:
+            s = const_str(n.args[0])
+            if s is not None and s in params:
+                out.add(s)
+    return out
